@@ -319,7 +319,8 @@ def run_case(case, driver, stats=None, trace=None):
                     prob(k, "reset", "after reset target_measure_dir = %s, but draw * (upper - lower) = %s (z=%s, lower=%s, upper=%s)" % (
                         np.asarray(d).tolist() if d is not None else None, expected.tolist(), z.tolist(), lo.tolist(), up.tolist()), True)
                     break
-                if dir_before is not None and snap_value(d) == dir_before:
+                if dir_before is not None and snap_value(d) == dir_before and np.any(np.asarray(up - lo) != 0):
+                    # (an archive whose every measure range is exactly 0 makes every direction the zero vector)
                     prob(k, "reset-stale", "reset did not draw a new direction", True)
                 if twin[0] is not None and not np.array_equal(np.asarray(twin[0].target_measure_dir), twin[1]):
                     prob(k, "reset", "resetting one ranker changed the direction of ANOTHER ranker that had been given the same direction and was "
